@@ -204,6 +204,7 @@ impl SVCB {
     /// ```
     pub(crate) fn from_tokens<'i, I: Iterator<Item = &'i str>>(
         mut tokens: I,
+        origin: Option<&Name>,
     ) -> Result<Self, ParseError> {
         // SvcPriority
         let svc_priority: u16 = tokens
@@ -215,7 +216,7 @@ impl SVCB {
         let target_name: Name = tokens
             .next()
             .ok_or_else(|| ParseError::MissingToken("Target".to_string()))
-            .and_then(|s| Name::from_str(s).map_err(ParseError::from))?;
+            .and_then(|s| Name::parse(s, origin).map_err(ParseError::from))?;
 
         // Loop over all of the service parameters
         let mut svc_params = Vec::new();
